@@ -215,6 +215,10 @@ def stereo_mol_graph_to_rdmol(
                 for a in mol.GetAtomWithIdx(atom_idx).GetNeighbors()
             ])
 
+            if len(rd_nbrs) == 3:
+                # the lone pair counts as the last neighbour, as in the import
+                rd_nbrs = (*rd_nbrs, None)
+
             if a_stereo.parity is None:
                 rd_stereo = Chem.rdchem.ChiralType.CHI_TETRAHEDRAL
             elif rd_nbrs in {tuple(perm[1:5]) for perm in a_stereo._perm_atoms()}:
